@@ -89,4 +89,30 @@ PROPS = {
         "level_text": "Exploration by generated request sequences with a reference model as oracle (iff on the verdict, equality on the applied state, no-change on refusal). Tens of thousands of judged requests per run; sampling, not proof.",
         "level_note": "Trusted base: the 150-line reference procedure in harness/src/props/c05.rs, rpki ResourceSet arithmetic. ca_child_update with the empty set is accepted by design (documented) and modelled so.",
     },
+    "C06": {
+        "level": "exploration",
+        "cases": {"quick": 800, "thorough": 16000},
+        "rule": "cases = generated (configuration, hierarchy, history) triples on memory and disk storage with the snapshot task executed at generated points and restarts on disk; "
+        "at every checkpoint each event-sourced entity (every CA, the TA proxy, the TA signer, repository access; repository content via its write-ahead log) is rebuilt twice - by a fresh store "
+        "on the same storage (snapshot + later commands) and by a fresh store on a copy without snapshots (replay from the initialisation command) - and compared with the live state; "
+        "distinct by hash of the case JSON; non-trivial iff at least 15 commands were stored, at least two entities compared and a snapshot existed at a checkpoint",
+        "floors": {"__nontrivial__": 0.30, "snapshot_present": 0.30, "disk": 0.25, "restart": 0.05},
+        "assumptions": W_ASSUME + ["two wall-clock fields that apply() fills in and no API exposes (last_key_change, RouteInfo.since) are masked", "the write-ahead-logged repository content can only be rebuilt from its last snapshot (by design); it is compared through list replies and statistics"],
+        "technique": "property-based testing of command histories with a three-way round trip: live state = state from snapshot + later commands = state replayed from scratch (serde views with two masked fields), replay wrapped in catch_unwind",
+        "level_text": "Exploration by generated histories; the oracle is a three-way differential between constructions of the same state from the stored audit log. Sampling of histories, not proof of purity of apply().",
+        "level_note": "Trusted base: serde views of the aggregates (complete state), the storage copy routine of the harness.",
+    },
+    "C19": {
+        "level": "exploration",
+        "cases": {"quick": 1200, "thorough": 24000},
+        "rule": "cases = generated (configuration, hierarchy, history) triples on memory and disk storage biased to operations that make exchanges fail and succeed again "
+        "(publisher removed / re-created at the server, child removed at the parent, parent removed, identity replaced, suspension, key rolls, entitlement changes, CA deletion, restarts); "
+        "at every checkpoint a probe exchange is made for every (CA, parent) and (CA, repository) through the public calls that return the outcome, so the probe is the most recent exchange and its "
+        "outcome is known; distinct by hash of the case JSON; non-trivial iff a failed exchange was later followed by a success for the same peer, or a restart happened after a failure",
+        "floors": {"__nontrivial__": 0.08, "failed_exchange": 0.20, "publisher_removed": 0.15, "restart": 0.05},
+        "assumptions": W_ASSUME + ["timestamps are not compared", "the entitlements shown are compared with what the CA holds after synchronisation (for parents other than the trust anchor)"],
+        "technique": "property-based testing of operation histories with probe exchanges: reported status (parents, repository, issues, children) compared with the known outcome of the most recent exchange; published-object list compared as a duplicate-free set with the publication server's content; status digest compared before and after restarts",
+        "level_text": "Exploration by generated histories. failure-with-error iff the probe failed, success otherwise together with the entitlements, published list = server content after a successful sync, child entries at the parent, entries of removed parents/children/CAs gone, identical views across restart. Sampling, not proof.",
+        "level_note": "Trusted base: the probe calls (ca_sync_parent, cas_repo_sync_single) are krill's own synchronisation entry points; their Ok/Err is taken as the outcome of the exchange.",
+    },
 }
